@@ -55,6 +55,14 @@ def classical_ops(ty, n, idx):
         ops.append(("unpack", [f"{names}{',' if n == 1 else ''} = xs.copy()"] + [f'result("u", {rd(ty, f"u{k}")})' for k in range(n)]))
         ops.append(("starred-unpack", ["h0, *rest = xs.copy()", f'result("h", {rd(ty, "h0")})', "for e in rest:",
                                        f'    result("t", {rd(ty, "e")})']))
+    # every split of the targets around the star: k names before, m names after
+    for k, m in ((0, 1), (0, 2), (1, 1), (1, 2), (2, 1), (0, 3), (2, 0)):
+        if n >= k + m and (k, m) != (1, 0):
+            before = [f"b{i}" for i in range(k)]
+            after = [f"a{i}" for i in range(m)]
+            tg = ", ".join(before + ["*mid"] + after)
+            ops.append((f"starred-unpack-{k}-{m}", [f"{tg} = xs.copy()"] + [f'result("b", {rd(ty, v)})' for v in before] +
+                        ["for e in mid:", f'    result("m", {rd(ty, "e")})'] + [f'result("a", {rd(ty, v)})' for v in after]))
     return ops
 
 
